@@ -46,6 +46,28 @@ def make_area(kind, s, e):
     return DummyCandidateCluster([proto])
 
 
+def expected_components(areas):
+    """ independent oracle: connected components of 'share a base' among (start, end) areas -> sorted (hull, members) """
+    parent = list(range(len(areas)))
+
+    def find(x):
+        while parent[x] != x:
+            x = parent[x]
+        return x
+    for a in range(len(areas)):
+        for b in range(a + 1, len(areas)):
+            if areas[a][0] < areas[b][1] and areas[b][0] < areas[a][1]:
+                parent[find(a)] = find(b)
+    comps = {}
+    for i, area in enumerate(areas):
+        comps.setdefault(find(i), []).append(area)
+    out = []
+    for members in comps.values():
+        members.sort(key=lambda m: (m[0], -(m[1] - m[0])))
+        out.append((min(m[0] for m in members), max(m[1] for m in members), members))
+    return sorted(out)
+
+
 def observe_regions(record):
     out = []
     for region in record.get_regions():
@@ -98,6 +120,11 @@ def run(chk):
             out = [len(got)]
             for s, e, members in got:
                 out += [s, e, len(members)] + [x for m in members for x in m]
+            if got != expected_components(list(areas)):
+                chk.violation("counterexample", "regions are not the connected components of the overlapping areas",
+                              {"theorem_or_correspondence": "C06_components_linear / Record.create_regions",
+                               "input": {"length": n, "areas": areas, "step": label}, "implementation": got,
+                               "expected": expected_components(list(areas)), "flat": flat})
         except Exception as exc:  # pylint: disable=broad-except
             got, out = [], [-1, err_code(exc)]
         cases.append(flat)
